@@ -1046,6 +1046,9 @@ func (io *invertedIndexOpaque) Reset() (err error) {
 	atomic.StoreUint64(&io.bytesWritten, 0)
 	io.fieldsSame = false
 	io.numDocs = 0
+	// writeDicts fills in an address per field only for a non-empty batch; a stale
+	// entry must not be published as a field's section address by the next build
+	clear(io.fieldAddrs)
 
 	return err
 }
